@@ -232,3 +232,9 @@ UNITS.append(Unit('dec.read_string', (DEC + 'read_string', None), contract=RSTR_
 
 # bounded stand-ins for skip_item / chunked strings were tried (reference-parser comparison on <= 4..5 input bytes) and did not
 # terminate within 25 minutes because recursion unwinding multiplies the five recursive call sites; see DESIGN.md section 7b.
+
+# The three byte-window units (2-10 minutes each, 3-5 GB per query) are decided by the quick checks of C05 / C07 / C03, which own them; C01 (a chain over 150 units)
+# re-runs them only in its thorough tier, so that its quick check stays within the time a per-change check may take.
+for _u in UNITS:
+    if _u.id in ('dec.read_string', 'dec.read_int', 'dec.read_to_buffer'):
+        _u.thorough_only_in = ('C01',)
